@@ -145,13 +145,38 @@ AliasAt(j) ==
   LET a == AliasTypes[1 + ((j - 1) % Len(AliasTypes))]
   IN  TItem("aliased_types", Wrap(IF j <= Len(AliasTypes) THEN 0 ELSE 1, a[1], a[2], a[2]))
 
+\* ---- struct types that declare a member name twice x objects with missing / surplus members ------------------
+\* (counting members instead of naming them lets a surplus member balance a repeated declaration)
+DupTypes == <<
+  <<Member("amount", "uint256"), Member("amount", "uint256")>>,
+  <<Member("amount", "uint256"), Member("to", "address"), Member("amount", "uint256")>>,
+  <<Member("amount", "uint256"), Member("amount", "string")>>,
+  <<Member("a", "uint8"), Member("a", "uint8"), Member("a", "uint8")>>,
+  <<Member("a", "uint8"), Member("b", "uint8"), Member("a", "uint8"), Member("b", "uint8")>> >>
+DupObjs == <<
+  << <<"amount", NNum("1")>> >>, << <<"amount", NNum("1")>>, <<"recipient", NHexBytes(Rep(20, 9))>> >>,
+  << <<"amount", NNum("1")>>, <<"to", NHexBytes(Rep(20, 9))>> >>, << <<"amount", NNum("1")>>, <<"to", NHexBytes(Rep(20, 9))>>, <<"memo", NStr("x")>> >>,
+  << <<"a", NNum("1")>> >>, << <<"a", NNum("1")>>, <<"x", NNum("2")>> >>, << <<"a", NNum("1")>>, <<"x", NNum("2")>>, <<"y", NNum("3")>> >>,
+  << <<"a", NNum("1")>>, <<"b", NNum("2")>> >>, << <<"a", NNum("1")>>, <<"b", NNum("2")>>, <<"c", NNum("3")>>, <<"d", NNum("4")>> >>,
+  << <<"a", NNum("1")>>, <<"c", NNum("3")>>, <<"d", NNum("4")>>, <<"e", NNum("5")>> >>, <<>> >>
+NDup == Len(DupTypes) * Len(DupObjs) * 2
+DupAt(j) ==
+  LET t == DupTypes[1 + ((j - 1) % Len(DupTypes))]
+      o == NObj(DupObjs[1 + (((j - 1) \div Len(DupTypes)) % Len(DupObjs))])
+  IN  TItem("duplicate_member_names",
+            IF j <= Len(DupTypes) * Len(DupObjs)
+            THEN Doc(<<NameOnlyDomainType, <<"P", TypeDef(t)>> >>, "P", NameOnlyDomain, o)
+            ELSE Doc(<<NameOnlyDomainType, <<"P", TypeDef(<<Member("qs", "Q[]")>>)>>, <<"Q", TypeDef(t)>> >>, "P", NameOnlyDomain,
+                     NObj(<< <<"qs", NArr(<<o>>)>> >>)))
+
 O1 == NInts
 O2 == O1 + NBytesN
 O3 == O2 + NFixed
 O4 == O3 + NNest
 O5 == O4 + Len(UndefDocs)
 O6 == O5 + NMatrix
-Count == O6 + NAlias
+O7 == O6 + NAlias
+Count == O7 + NDup
 ItemAt(g) ==
   IF g <= O1 THEN IntAt(g)
   ELSE IF g <= O2 THEN BytesNAt(g - O1)
@@ -159,7 +184,8 @@ ItemAt(g) ==
   ELSE IF g <= O4 THEN NestAt(g - O3)
   ELSE IF g <= O5 THEN UndefAt(g - O4)
   ELSE IF g <= O6 THEN MatrixAt(g - O5)
-  ELSE AliasAt(g - O6)
+  ELSE IF g <= O7 THEN AliasAt(g - O6)
+  ELSE DupAt(g - O7)
 VARIABLE n
 INSTANCE GenBase
 =============================================================================
